@@ -241,6 +241,14 @@ class Canon:
                 if on("S3") and isinstance(st, ast.If) and st.orelse and prefer_negated(st.test):
                     st.test, st.body, st.orelse = neg(st.test), st.orelse, st.body
                     changed = True
+                # S8: `if a: (if b: X)` with no else on either -> `if a and b: X`
+                if on("S8") and isinstance(st, ast.If) and not st.orelse and len(st.body) == 1 and isinstance(st.body[0], ast.If) and not st.body[0].orelse:
+                    inner = st.body[0]
+                    vals = (st.test.values if isinstance(st.test, ast.BoolOp) and isinstance(st.test.op, ast.And) else [st.test]) + \
+                           (inner.test.values if isinstance(inner.test, ast.BoolOp) and isinstance(inner.test.op, ast.And) else [inner.test])
+                    st.test = loc(ast.BoolOp(op=ast.And(), values=vals), st.test)
+                    st.body = inner.body
+                    changed = True
                 # S4: guard-clause form
                 if on("S4") and isinstance(st, ast.If) and st.orelse:
                     if not _terminates(st.body) and _terminates(st.orelse):
